@@ -189,9 +189,12 @@ def _hessian(repo, res, bl):
         utils = repo.module(M.M_UTILS)
         vff = utils.functions["vecToMatFF"]
 
-        def vec_to_mat_ff(ff, d, p, _fn=vff):
+        def vec_to_mat_ff(*a, **kw):
+            _fn = vff
             ab = Abs({}, {}, dict(np_summaries()), None)
-            kind, v = ab.run_function(_fn.node, dict(zip(_fn.params, (ff, d, p))))
+            b = dict(zip(_fn.params, a))
+            b.update(kw)
+            kind, v = ab.run_function(_fn.node, b)
             if kind == "raise":
                 raise Raised(v)
             return v
